@@ -73,6 +73,11 @@ def _nreps(env):
 
 
 def _check_pat(p, patb, icase):
+    # the delimiter scanner of the editor (re_read) on an exactly sized copy: it must stop at the terminator
+    for dl in (b"/", b"?"):
+        rr = p.call("rr", probe.hx(dl + patb))[0]
+        if rr[1] > len(patb) + 1:
+            return "re_read consumed %d bytes of a %d-byte string" % (rr[1], len(patb) + 1), [0, 0, 0, 1, 900]
     r = p.call("c11", 1 if icase else 0, probe.hx(patb), len(LINES), *LH)[0]
     made_rs, made_str, nfound, nbad, first = r
     if nbad:
